@@ -209,6 +209,8 @@ func checkC13(c *Check) {
 		ruleXXHBuffer(c, p)
 		c.RuleDoc["R13.10"] = "the stages of XXH32 consume their input exactly: stride loops continue only with a whole unit and stop only without one (bounds prover); no index of the hash code can panic"
 		ruleXXHConsumption(c, p, "R13.10")
+		c.RuleDoc["R13.11"] = "the lazy initialisation in Write is governed by the running length being 0 alone"
+		ruleXXHLazyInit(c, p, "R13.11")
 	}
 	checkPartition(c, "R13.4", "internal/xxh32", []string{"ChecksumZero", "update"}, []string{"gc"})
 }
